@@ -44,6 +44,7 @@ G0 == [ tp     |-> 0,          \* Engine._transport: 0 = None, else the k-th tra
         ctx    |-> "Inactive", \* the QoS context: Inactive | Idle
         st     |-> "none",     \* start(): none | wait (for connection_made, inside the factory) | wait2 (Engine.start's own wait)
         stTp   |-> 0,          \*   the transport that start() is waiting for
+        stW    |-> FALSE,      \*   the future it awaits has been resolved (its wake-up is on its way, whatever happens next)
         sp     |-> "none",     \* stop(): none | cancel (cancelling / gathering the tracked tasks) | wait (for connection_lost)
         q      |-> <<>>,       \* call_soon()ed protocol callbacks, FIFO: <<"made"|"lost", k, err>>
         ann    |-> {},         \* live transports that have not yet announced their connection
@@ -55,7 +56,8 @@ G0 == [ tp     |-> 0,          \* Engine._transport: 0 = None, else the k-th tra
 ConnMade(g, k) ==
   LET base == IF g.made # "pend"                \* _BaseProtocol: "if self._wait_connection_made.done(): return"
               THEN g
-              ELSE [g EXCEPT !.lost = "pend", !.lostE = FALSE, !.made = "done", !.ptp = k]
+              ELSE [g EXCEPT !.lost = "pend", !.lostE = FALSE, !.made = "done", !.ptp = k,
+                             !.stW = (g.st \in {"wait", "wait2"})]
   IN IF base.ptp = 0                            \* self._transport.get_extra_info(...) on None
      THEN [base EXCEPT !.trips = @ \cup {"made:no-transport"}]
      ELSE IF base.act                           \* _set_active_hgi: assert self._active_hgi is None
@@ -82,24 +84,31 @@ Close(g, k, err) ==
 \* up to the first await inside transport_factory: a new transport exists, the factory waits for its announcement
 StartCallS(g, silent) ==
   LET k == g.ntp + 1 IN
-  [g EXCEPT !.ntp = k, !.st = "wait", !.stTp = k, !.ann = IF silent THEN @ ELSE @ \cup {k}]
+  [g EXCEPT !.ntp = k, !.st = "wait", !.stTp = k, !.stW = (g.made = "done"),   \* (a future already resolved answers at once)
+            !.ann = IF silent THEN @ ELSE @ \cup {k}]
 StartCall(g) == StartCallS(g, (g.ntp + 1) \in Silent)
 
 \* the transport has identified its gateway: call_soon(protocol.connection_made)
 Announce(g, k) == [g EXCEPT !.ann = @ \ {k}, !.q = Append(@, <<"made", k, FALSE>>)]
 
-\* wait_for_connection_made() is satisfied: the factory returns the transport; Engine.start() keeps it and waits once more
-FactoryOk(g) == [g EXCEPT !.st = "wait2", !.tp = g.stTp]
-StartOk(g)   == [g EXCEPT !.st = "none", !.rets = <<<<"start", "ok">>>>]
+\* wait_for_connection_made() was satisfied: the factory returns the transport; Engine.start() keeps it and asks once more -
+\* answered at once if the protocol's future (as it is by now) is resolved, else it waits again (1 s)
+StartOk(g)   == [g EXCEPT !.st = "none", !.stW = FALSE, !.rets = <<<<"start", "ok">>>>]
+FactoryOk(g) == LET h == [g EXCEPT !.tp = g.stTp] IN
+                IF h.made = "done" THEN StartOk(h)
+                ELSE IF h.made = "cancelled"
+                THEN [h EXCEPT !.st = "none", !.stW = FALSE, !.trips = @ \cup {"start:CancelledError"},
+                               !.rets = <<<<"start", "CancelledError">>>>]
+                ELSE [h EXCEPT !.st = "wait2", !.stW = FALSE]
 
 \* ... or the time-out of either wait fires first: TransportError (the engine keeps whatever transport it has by then)
 StartTimeout(g) ==
-  [g EXCEPT !.st = "none", !.made = IF FixShield THEN @ ELSE "cancelled",
+  [g EXCEPT !.st = "none", !.stW = FALSE, !.made = IF FixShield THEN @ ELSE "cancelled",
             !.rets = <<<<"start", "TransportError">>>>]
 
 \* ... or the future it awaits had been cancelled by an earlier time-out: CancelledError at once
 StartCancelled(g) ==
-  [g EXCEPT !.st = "none", !.trips = @ \cup {"start:CancelledError"}, !.rets = <<<<"start", "CancelledError">>>>]
+  [g EXCEPT !.st = "none", !.stW = FALSE, !.trips = @ \cup {"start:CancelledError"}, !.rets = <<<<"start", "CancelledError">>>>]
 
 \* ---- Engine.stop() -----------------------------------------------------------------------------------
 \* cancel the tracked tasks and gather them (this may take loop iterations) ...
@@ -144,13 +153,12 @@ ARunCb     == /\ g.q # <<>>
 NoMadeComing == g.stTp \notin g.ann /\ ~(\E n \in 1..Len(g.q) : g.q[n][1] = "made")
 NoLostComing == ~(\E n \in 1..Len(g.q) : g.q[n][1] = "lost")
 AStartRet  == \/ /\ g.st = "wait"
-                 /\ \/ g.made = "done" /\ g' = FactoryOk(g)
-                    \/ g.made = "cancelled" /\ g' = StartCancelled(g)
-                    \/ g.made = "pend" /\ NoMadeComing /\ g' = StartTimeout(g)
+                 /\ \/ g.stW /\ g' = FactoryOk(g)
+                    \/ ~g.stW /\ g.made = "cancelled" /\ g' = StartCancelled(g)
+                    \/ ~g.stW /\ g.made = "pend" /\ NoMadeComing /\ g' = StartTimeout(g)
               \/ /\ g.st = "wait2"
-                 /\ \/ g.made = "done" /\ g' = StartOk(g)
-                    \/ g.made = "cancelled" /\ g' = StartCancelled(g)
-                    \/ g.made = "pend" /\ NoMadeComing /\ g' = StartTimeout(g)
+                 /\ \/ g.stW /\ g' = StartOk(g)
+                    \/ ~g.stW /\ g.made = "pend" /\ NoMadeComing /\ g' = StartTimeout(g)
 AStopCall  == CanStop /\ g' = StopCall(g)
 AStopClose == g.sp = "cancel" /\ g' = StopClose(g)
 AStopRet   == /\ g.sp = "wait"
